@@ -65,7 +65,9 @@ def gen_data(rng, tier, latent=False):
             # small weights: a parent configuration that does occur can have a total weight below 1
             weights = [rs(Fraction(rng.randint(1, 9), rng.choice([20, 50, 100]))) for _ in range(nrows)]
     return {"cols": cols, "card": card, "labels": labels, "edges": edges, "rows": rows, "weights": weights, "dtype": dtype,
-            "pass_state_names": True if declared_perm or any(len(set(r[v] for r in rows)) < card[v] for v in range(n)) else rng.random() < .5,
+            # (without a declaration the states are the OBSERVED values - also for a categorical column that still carries unused levels)
+            "pass_state_names": True if declared_perm else (False if rng.random() < .25 else
+                                                            (True if any(len(set(r[v] for r in rows)) < card[v] for v in range(n)) else rng.random() < .5)),
             "declared_perm": declared_perm,
             "n_jobs": rng.choice([1, 1, 2]),
             # row labels of the frame: counts do not depend on them
@@ -313,13 +315,22 @@ def gen_update(rng, tier):
     case["pass_state_names"] = True
     n = len(case["cols"])
     case["rows2"] = [[rng.randrange(case["card"][v]) for v in range(n)] for _ in range(rng.randint(3, 20))]
-    case["nprev"] = rng.choice([None, 1, 10, 37])
+    case["nprev"] = rng.choice([None, 1, 10, 37, 0, 0])
     return case
 
 
 def run_update(case, drv):
     from pgmpy.estimators import MaximumLikelihoodEstimator
     names, card, labels = case["cols"], case["card"], case["labels"]
+    if case["nprev"] == 0:
+        # zero previous samples: the update is the estimate from the new data alone - defined where every parent configuration occurs
+        for v in range(len(names)):
+            ps = parents_of(case, v)
+            q = 1
+            for p_ in ps:
+                q *= card[p_]
+            if len({tuple(r[p_] for p_ in ps) for r in case["rows2"]}) < q:
+                return skip("n_prev_samples = 0 with a parent configuration that does not occur in the new data (0/0)")
     df1 = make_df(case)
     m = build_model(case)
     try:
